@@ -91,6 +91,126 @@ Definition doc_records (d : psd) : list layer_record :=
   | None => []
   end.
 
+(* ------------------------------------------------------------------ the reader with CPython's size limit
+   Found by the correspondence check on version-2 mutants: a length read from an 8-byte field that is
+   >= 2^63 makes io.BytesIO.read(n) / seek(pos) raise OverflowError (Py_ssize_t) where Model.read_psd
+   treats it as an ordinary over-long length (IOError, or - for the layer-info length, whose end position is
+   only sought - acceptance).  [read_psd_py] is Model.read_psd with exactly those checks inserted, at the
+   four sites that read an 8-byte length: tagged block (big keys), channel data, layer info, the section.
+   It only rejects more ([read_psd_py_refines]), so every theorem about read_psd holds for it.
+   [total] is the length of the whole file: fp.tell() = total - len (rest). *)
+Definition ssize_max : Z := 2 ^ 63 - 1.
+Definition ovf (n : Z) : bool := ssize_max <? n.
+
+Definition read_tagged_block_py (v padding : Z) (s : stream) : res (option (tagged_block * stream)) :=
+  do (sg, s1) <- read_u 4 s;
+  if negb (memz sg model_tb_sigs) then Ok None
+  else
+    do (key, s2) <- read_u 4 s1;
+    do (n, _) <- read_u (tb_len_bytes v key) s2;
+    if ovf n then Err OverflowErr else read_tagged_block v padding s.
+Fixpoint read_tagged_items_py (fuel : nat) (v padding : Z) (budget : option Z) (s : stream)
+  : res (list tagged_block * stream) :=
+  match fuel with
+  | O => Err OutOfFuel
+  | S f =>
+      if negb (is_readable 8 s) then Ok ([], s)
+      else if match budget with Some b => b <=? 0 | None => false end then Ok ([], s)
+      else
+        do r <- read_tagged_block_py v padding s;
+        match r with
+        | None => Ok ([], s)
+        | Some (b, s1) =>
+            let budget' := match budget with Some x => Some (x - (len s - len s1)) | None => None end in
+            do (bs, s2) <- read_tagged_items_py f v padding budget' s1;
+            Ok (b :: bs, s2)
+        end
+  end.
+Definition read_tagged_blocks_py (v padding : Z) (budget : option Z) (s : stream)
+  : res (list tagged_block * stream) :=
+  do (items, s1) <- read_tagged_items_py (S (length s)) v padding budget s;
+  Ok (od_build tb_key items, s1).
+
+Definition read_channel_data_py (length : Z) (s : stream) : res (channel_data * stream) :=
+  do r <- read_channel_data length s;
+  if ovf length then Err OverflowErr else Ok r.
+
+Section ReaderPy.
+  Variable dec_s : list Z -> res (list Z).
+
+  Definition read_record_py (v : Z) (s : stream) : res (layer_record * stream) :=
+    do (top, s1) <- read_s 4 s;
+    do (lft, s2) <- read_s 4 s1;
+    do (bottom, s3) <- read_s 4 s2;
+    do (rgt, s4) <- read_s 4 s3;
+    do (nch, s5) <- read_u 2 s4;
+    do (chans, s6) <- read_n (Z.to_nat nch) (read_channel_info v) s5;
+    do (sg, s7) <- read_u 4 s6;
+    do (blend, s8) <- read_u 4 s7;
+    do (opacity, s9) <- read_u 1 s8;
+    do (clip, s10) <- read_u 1 s9;
+    do (fl, s11) <- read_u 1 s10;
+    do (data, s12) <- read_length_block 1 4 1 s11;
+    do (mask, f1) <- read_mask data;
+    do (ranges, f2) <- read_ranges f1;
+    do (name, f3) <- r_pascal dec_s 4 f2;
+    do (blocks, _) <- read_tagged_blocks_py v 1 None f3;
+    if memz sg model_record_sigs && memz blend model_blend_modes && memz clip model_clippings then
+      Ok (mkRec top lft bottom rgt chans sg blend opacity clip (lflags_of fl) mask ranges name blocks, s12)
+    else Err ValueErr.
+
+  Fixpoint read_channel_list_py (cis : list channel_info) (s : stream) : res (list channel_data * stream) :=
+    match cis with
+    | [] => Ok ([], s)
+    | ci :: cis' => do (c, s1) <- read_channel_data_py (ci_len ci - 2) s;
+                    do (l, s2) <- read_channel_list_py cis' s1; Ok (c :: l, s2)
+    end.
+  Fixpoint read_channel_lists_py (rs : list layer_record) (s : stream) : res (list (list channel_data) * stream) :=
+    match rs with
+    | [] => Ok ([], s)
+    | r :: rs' =>
+        do (l, s1) <- read_channel_list_py (r_channels r) s;
+        do (ls, s2) <- read_channel_lists_py rs' s1;
+        Ok (l :: ls, s2)
+    end.
+  Definition read_li_body_py (v : Z) (s : stream) : res (layer_info * stream) :=
+    do (count, s1) <- read_s 2 s;
+    do (recs, s2) <- read_n (Z.to_nat (Z.abs count)) (read_record_py v) s1;
+    do (chans, s3) <- read_channel_lists_py recs s2;
+    Ok (mkLI count (Some recs) (Some chans), s3).
+  Definition read_layer_info_py (total v : Z) (s : stream) : res (layer_info * stream) :=
+    do nb <- len_bytes v;
+    do (length, s1) <- read_u nb s;
+    if length =? 0 then Ok (mkLI 0 None None, s1)
+    else
+      do (li, s2) <- read_li_body_py v s1;
+      if len s1 - len s2 <=? length then
+        (if ovf (total - len s1 + length) then Err OverflowErr else Ok (li, skipz length s1))   (* fp.seek(end_pos) *)
+      else Err AssertErr.
+
+  Definition read_lami_body_py (total v : Z) (s : stream) (length : Z) : res lami :=
+    do (li, s2) <- read_layer_info_py total v s;
+    do (g, s3) <- r_opt (is_readable glmi_probe s2 && (len s - len s2 <? length)) read_glmi s2;
+    do tb <- (if is_readable 1 s3 then
+                do (bs, _) <- read_tagged_blocks_py v 4 (Some (length - (len s - len s3))) s3; Ok (Some bs)
+              else Ok None);
+    Ok (mkLAMI (Some li) g tb).
+  Definition read_lami_py (total v : Z) (s : stream) : res (lami * stream) :=
+    do nb <- len_bytes v;
+    do (length, s1) <- read_u nb s;
+    if length =? 0 then Ok (mkLAMI None None None, s1)
+    else do l <- read_lami_body_py total v s1 length;
+         if ovf (total - len s1 + length) then Err OverflowErr else Ok (l, skipz length s1).
+
+  Definition read_psd_py (s : stream) : res psd :=
+    do (h, s1) <- read_header s;
+    do (cmd, s2) <- read_cmd s1;
+    do (rs, s3) <- read_resources dec_s s2;
+    do (l, s4) <- read_lami_py (len s) (h_version h) s3;
+    do img <- read_image_data s4;
+    Ok (mkPSD h cmd rs l img).
+End ReaderPy.
+
 (* ------------------------------------------------------------------ the pipeline as a function *)
 Definition b2l (b : bool) : Z := if b then 1 else 0.
 
@@ -108,7 +228,7 @@ Definition guard_bits (d : psd) : Z :=
 (* [read: 0; digest canon d; guard bits] ++ [save: 0; n; digest s] ++ [re-read: 0; digest canon d'; d' == d ?]
    ++ [second save: 0; same bytes ?]   -- each stage replaced by its error code when it fails *)
 Definition resave_outcome (b : list Z) : list Z :=
-  match read_psd dec b with
+  match read_psd_py dec b with
   | Err e => [err_code e]
   | Ok d =>
       [0; dig (c_psd d); guard_bits d] ++
@@ -116,7 +236,7 @@ Definition resave_outcome (b : list Z) : list Z :=
       | Err e => [err_code e]
       | Ok (s, n) =>
           [0; n; dig s] ++
-          match read_psd dec s with
+          match read_psd_py dec s with
           | Err e => [err_code e]
           | Ok d' =>
               [0; dig (c_psd d'); b2l (list_eqb (c_psd d') (c_psd (psd_after_write d)))] ++
@@ -130,9 +250,19 @@ Definition resave_outcome (b : list Z) : list Z :=
 
 (* debugging aids of the harness: the canonical structure read / the bytes written *)
 Definition resave_canon (b : list Z) : list Z :=
-  match read_psd dec b with Err e => [err_code e] | Ok d => 0 :: c_psd d end.
+  match read_psd_py dec b with Err e => [err_code e] | Ok d => 0 :: c_psd d end.
 Definition resave_bytes (b : list Z) : list Z :=
-  match read_psd dec b with
+  match read_psd_py dec b with
   | Err e => [err_code e]
   | Ok d => match write_psd enc 4 d with Err e => [100 + err_code e] | Ok (s, _) => 0 :: s end
+  end.
+
+(* ------------------------------------------------------------------ stage 2: the modelled payload classes (Psd/Leaf.v)
+   F-C02-6: a SectionDividerSetting payload of 8..11 bytes is read as (kind, no blend mode, sub_type);
+   the writer emits the sub type only after a blend mode, so it is lost on re-save *)
+From PsdV Require Import Psd.Leaf.
+Definition leaf_guard (l : leaf) : bool :=
+  match l with
+  | LSectionDivider _ None _ (Some _) => false
+  | _ => true
   end.
